@@ -397,6 +397,21 @@ def _run_rest(ctx, res):
         res.add(Finding('C16', 'C16.e', 'R-PROV', it3.file, it3.qualname, bad[0].lineno if bad else it3.node.lineno, norm(bad[0]) if bad else 'listing removal',
                         'when a per-day listing is exhausted, a listing is dropped by position / other identity instead of the exhausted one (`%s`): an '
                         'unread day can be discarded and its recordings are missed' % cur))
+    # a listing is taken for exhausted only when it *is* exhausted: a failure while listing must reach the caller, not end that day quietly
+    swallow = []
+    for t_ in [n for n in ast.walk(it3.node) if isinstance(n, ast.Try)]:
+        if not any(isinstance(x, ast.Call) and isinstance(x.func, ast.Name) and x.func.id == 'next' for b in t_.body for x in ast.walk(b)):
+            continue
+        for h in t_.handlers:
+            names = [norm(x).split('.')[-1] for x in (h.type.elts if isinstance(h.type, ast.Tuple) else [h.type])] if h.type is not None else ['<bare>']
+            reraises = any(isinstance(x, ast.Raise) for x in ast.walk(h))
+            if any(nm != 'StopIteration' for nm in names) and not reraises:
+                swallow.append((h, names))
+    cee.instance('a failing per-day listing is not mistaken for an exhausted one', it3.qualname, not swallow)
+    for h, names in swallow[:1]:
+        res.add(Finding('C16', 'C16.e', 'R-PROV', it3.file, it3.qualname, h.lineno, 'except %s around next(<listing>)' % ', '.join(names),
+                        'an exception raised while a per-day listing is read (%s) is swallowed and the listing is treated as exhausted: the lookup '
+                        'returns normally with that day\'s remaining recordings silently missing' % ', '.join(names)))
     # ---- C16.f every saved recording has the object the window lookup lists (shared with C15.e)
     from . import c15
     cff = res.clause('C16.f', 'R-ORDER', 'every returning save writes the listed object (a saved recording is discoverable)', floor=1)
